@@ -33,6 +33,17 @@ SHRINK = {"ops": "list"}
 SPOTS = ["<table>x", "<table> y<tr>", "<table><b>bold", "<pre>\n", "<textarea>\n", "<listing>\n", "<pre>", "<textarea>a", "<title>t", "<script>s", "<style>s", "<plaintext>p", "<select><option>",
          "<p><b><i>", "<svg><foreignObject>", "<frameset>", "<table><caption>", "<form>", "<a>", "<nobr>", "<b><b><b>", "</body>x", "</html>y", "<head><noscript>", "<xmp>", "<!--", "<!DOCTYPE html>",
          "<table><td><table>z", "<body a=1>", "<html b=2>", "<math><mi>", "<iframe>", "<noembed>", "&amp", "<a b=\"", "<![CDATA["]
+CONF_BODY = ["<p>a</p>", "<table><tr><td>x</td></tr></table>", "<table> <tbody> <tr> <td>x</td> </tr> </tbody> </table>", "<pre>\n\nx</pre>", "<textarea>\nq</textarea>",
+             "<form><input></form>", "<select><option>o</option></select>", "<ul><li>i</li></ul>", "<p><b>bold</b> <i>it</i></p>",
+             "<table><caption>c</caption><tr><td><form><input></form></td></tr></table>", "<svg><g></g></svg>", "<div><a href=u>l</a></div>", "<table><colgroup><col></colgroup><tr><th>h</th></tr></table>",
+             "<dl><dt>t</dt><dd>d</dd></dl>", "<p>x<br>y</p>", "<listing>\nz</listing>", "<table>\n<tr>\n<td>\n</td>\n</tr>\n</table>", "<button>b</button>", "<ruby>r<rt>t</rt></ruby>",
+             "<math><mi>m</mi></math>", "<script>s</script>", "<form><table><tr><td><input></td></tr></table></form>"]
+OPEN_PREFIX = ["<table>", "<table><tr>", "<table><tr><td>", "<table><tbody>", "<table><caption>", "<table><colgroup>", "<select>", "<form>", "<p><b>", "<pre>", "<textarea>", "<svg>", "<math><mi>",
+               "<ul><li>", "<dl><dt>", "<form><table>", "<b><i><nobr>", "<a href=u>", "<button>", "<ruby>r<rt>", "<table><tr><td><select>", "<object>", "<table> ", "<table><tr> ", "<div>", "<h1>",
+               "<table><tr><td><form>", "<select><optgroup>", "<pre>\n", "<script>", "<style>", "<iframe>", "<title>", "<table><tr><td><table>"]
+BAD = ["<b>", "x", "</p>", "<td>", "</table>", "<form>", "<a href=v>", "\x00", "<table>", "</b>", "<li>", "<body>", "<html a=1>", "&#0;", "<input>", "<select>", "</tr>", "<!DOCTYPE html>", "</form>",
+       "<svg>", "<i>", "<div>", "<p>", "<h2>", "<button>", "<nobr>", "</div>", "<caption>", "<col>", "<frameset>", "<head>", "<textarea>", "<plaintext>", "</body>x", "<image>", "&bogus;", "<a b=1 b=2>",
+       "</br>", "<option>", "</select>", "<tr>"]
 NAMES = ["e%d" % i for i in range(40)]
 SER_OPTS = [{}, {"omit_optional_tags": False}, {"quote_attr_values": "always", "alphabetical_attributes": True}, {"sanitize": True, "strip_whitespace": True}]
 CONTAINERS = [None, None, "div", "table", "textarea", "pre", "select", "title", "tr", "script"]
@@ -42,6 +53,25 @@ def decode_doc(data):
     dec = Dec(data)
     parts = []
     stateful = 0
+    mode = dec.below(8)
+    if mode <= 3:
+        # error-free documents over the stateful spots (a strict parser completes them, so the whole tree is observable), and
+        # such a document cut open at a stateful position and continued with one offending token (a strict parser aborts
+        # exactly there: the abort sites vary over the phases instead of always being the missing doctype)
+        body = "".join(dec.pick(CONF_BODY) for _ in range(dec.below(3) + (1 if mode <= 1 else 0)))
+        if mode <= 1:
+            return "<!DOCTYPE html><title>t</title>" + body, 2
+        return "<!DOCTYPE html><title>t</title>" + body + dec.pick(OPEN_PREFIX) + dec.pick(BAD) + dec.pick(["", "x", "<p>", "</table>", " y", "<td>z"]), 2
+    if mode == 4:
+        from vf.gen import conforming
+        text = conforming.writer(conforming.decode_document(bytes(dec.byte() for _ in range(48)), size=14, always_doctype=True))
+        if dec.below(2):
+            return text, 1
+        cut = dec.below(256) * len(text) // 256
+        cut = text.rfind("<", 0, cut + 1) if "<" in text[:cut + 1] else cut
+        return text[:max(cut, 15)] + dec.pick(SPOTS) + dec.pick(["", "x", "<p>", "</table>", " y"]), 2
+    if mode == 5:
+        parts.append("<!DOCTYPE html>")    # otherwise a strict parse always aborts at the same first error (missing doctype)
     for _ in range(1 + dec.below(4)):
         k = dec.below(8)
         if k <= 3:
@@ -60,9 +90,14 @@ def _digest(x):
     return hashlib.sha1(repr(x).encode("utf-8", "surrogatepass")).hexdigest()
 
 
+PARSER_KINDS = ("etree", "dom", "strict", "etree-root")
+
+
 def _mk_parser(kind):
     if kind == "strict":
         return h5.parser("etree", True, strict=True, full_tree=True)
+    if kind == "etree-root":
+        return h5.parser("etree", True, full_tree=False)     # getTreeBuilder("etree", fullTree=False): same factory cache, other keyword value
     return h5.parser(kind, True, full_tree=True)
 
 
@@ -106,7 +141,7 @@ class Session(object):
     """The shared objects of one history."""
 
     def __init__(self):
-        self.parsers = {k: _mk_parser(k) for k in ("etree", "dom", "strict")}
+        self.parsers = {k: _mk_parser(k) for k in PARSER_KINDS}
         self.serializers = None
         self.log = []      # (op, digest of result) for the fresh-interpreter sample
 
@@ -240,6 +275,15 @@ def _nontrivial(ops):
 def check_case(case):
     ops = case["ops"]
     s = Session()
+    if case.get("fresh"):
+        # a call on a session's parser against the same call in an interpreter that has done nothing else
+        got = [_run_parse(s.parsers[op["p"]], op) for op in ops]
+        here = [_digest(r[1:]) if r[0] == "ok" else "raise" for r in got]
+        there = _fresh(ops, [])["isolated"]
+        if here != there:
+            return Verdict("fail", "%s parser of a session differs from a fresh interpreter for %s" % (ops[-1]["p"], short(ops[-1]["text"], 160)),
+                           "fresh-interpreter-differs:" + ops[-1]["p"], nontrivial=True)
+        return Verdict("pass", nontrivial=True)
     nontrivial = _nontrivial(ops)
     sig = sig64(tuple((op["op"], op.get("p"), _digest(op.get("text") or op.get("texts"))) for op in ops))
     classes = ["op:" + op["op"] for op in ops]
@@ -256,7 +300,7 @@ def check_case(case):
 
 
 # ---------------------------------------------------------------------------
-_doc = sized_binary(4, 60).map(decode_doc)
+_doc = sized_binary(4, 90).map(decode_doc)
 
 
 class ReuseMachine(RuleBasedStateMachine):
@@ -277,12 +321,22 @@ class ReuseMachine(RuleBasedStateMachine):
         if res is not None:
             self.failed = res
 
-    @rule(d=_doc, p=st.sampled_from(["etree", "dom", "strict"]), scripting=st.booleans(), container=st.sampled_from(CONTAINERS), as_bytes=st.booleans())
+    @rule(d=_doc, p=st.sampled_from(["etree", "dom", "strict", "strict", "etree-root"]), scripting=st.booleans(), container=st.sampled_from(CONTAINERS), as_bytes=st.booleans())
     def parse(self, d, p, scripting, container, as_bytes):
         text, stateful = d
         if as_bytes and container is None:
             text = text + "<meta charset=koi8-r>\xe9"
         self._do({"op": "parse", "p": p, "text": text, "scripting": scripting, "container": container, "bytes": as_bytes and container is None, "stateful": stateful})
+
+    # rules are chosen uniformly: two more spellings of the plain document parse give it the weight that histories of
+    # (aborted parse, completed parse) pairs on one object need
+    @rule(d=_doc, p=st.sampled_from(["etree", "dom", "strict", "strict", "strict"]), scripting=st.booleans())
+    def parse_doc(self, d, p, scripting):
+        self._do({"op": "parse", "p": p, "text": d[0], "scripting": scripting, "container": None, "bytes": False, "stateful": d[1]})
+
+    @rule(d=_doc, p=st.sampled_from(["strict", "strict", "dom", "etree-root"]))
+    def parse_doc2(self, d, p):
+        self._do({"op": "parse", "p": p, "text": d[0], "scripting": False, "container": None, "bytes": False, "stateful": d[1]})
 
     @rule(d=_doc, p=st.sampled_from(["etree", "dom", "strict"]), after=st.integers(0, 6), chunk=st.integers(1, 9))
     def faulty(self, d, p, after, chunk):
@@ -319,17 +373,37 @@ class ReuseMachine(RuleBasedStateMachine):
 
 
 _SUB = r'''
-import sys, json, hashlib
+import os, sys, json, hashlib
 sys.path.insert(0, %r); sys.path.insert(0, %r)
 from vf.core import from_json
 from vf.props import c12
-ops = from_json(json.load(sys.stdin))
-out = []
-for op in ops:
+d = from_json(json.load(sys.stdin))
+assert "html5lib" not in sys.modules
+def one(op):
     r = c12._run_parse(c12._mk_parser(op["p"]), op)
-    out.append(c12._digest(r[1:]) if r[0] == "ok" else "raise")
-print(json.dumps(out))
+    return c12._digest(r[1:]) if r[0] == "ok" else "raise"
+iso = []
+for op in d["isolated"]:        # one forked child per call: html5lib is imported anew, so no process-wide cache has seen anything
+    r, w = os.pipe()
+    pid = os.fork()
+    if pid == 0:
+        try:
+            os.write(w, one(op).encode())
+        finally:
+            os._exit(0)
+    os.close(w)
+    iso.append(os.read(r, 200).decode()); os.close(r); os.waitpid(pid, 0)
+print(json.dumps({"isolated": iso, "batch": [one(op) for op in d["batch"]]}))
 '''
+
+
+def _fresh(isolated, batch, seed=0):
+    from vf.core import REPO, VERIF_DIR, to_json
+    env = dict(os.environ, PYTHONHASHSEED=str(777 + seed % 1000), PYTHONDONTWRITEBYTECODE="1")
+    p = subprocess.run([sys.executable, "-c", _SUB % (REPO, VERIF_DIR)], input=json.dumps(to_json({"isolated": isolated, "batch": batch})), capture_output=True, text=True, env=env, timeout=1800)
+    if p.returncode != 0:
+        raise RuntimeError("fresh-interpreter subprocess failed: " + p.stderr[-400:])
+    return json.loads(p.stdout)
 
 
 def shards(tier):
@@ -348,16 +422,23 @@ def run_shard(desc, seed, tier):
     M.fresh_log = log
     run_state_machine_as_test(hypothesis.seed(seed)(M), settings=settings(max_examples=desc["n"], stateful_step_count=desc["steps"], database=None, deadline=None,
                                                                             phases=[Phase.generate], suppress_health_check=list(HealthCheck)))
-    # fresh-interpreter sample
+    # fresh-interpreter sample: every parser kind among the isolated ones (one interpreter state per call), the rest in one batch
     if log:
-        ops = [op for op, _ in log]
-        env = dict(os.environ, PYTHONHASHSEED=str(777 + seed % 1000), PYTHONDONTWRITEBYTECODE="1")
-        p = subprocess.run([sys.executable, "-c", _SUB % (REPO, VERIF_DIR)], input=json.dumps(to_json(ops)), capture_output=True, text=True, env=env, timeout=900)
-        if p.returncode != 0:
-            raise RuntimeError("fresh-interpreter subprocess failed: " + p.stderr[-400:])
-        there = json.loads(p.stdout)
-        for (op, dg), dg2 in zip(log, there):
-            if dg != dg2:
-                acc.add({"ops": [op]}, Verdict("fail", "result on a reused parser differs from a fresh interpreter for %s" % short(op["text"], 160), "fresh-interpreter-differs", nontrivial=True))
+        n_iso = 40 if tier == "quick" else 200
+        iso, seen = [], {}
+        for k, (op, dg) in enumerate(log):
+            if seen.get(op["p"], 0) < n_iso // 3:
+                seen[op["p"]] = seen.get(op["p"], 0) + 1
+                iso.append(k)
+        iso = iso[:n_iso]
+        rest = [k for k in range(len(log)) if k not in set(iso)]
+        there = _fresh([log[k][0] for k in iso], [log[k][0] for k in rest], seed)
+        for ks, dgs, how in ((iso, there["isolated"], True), (rest, there["batch"], False)):
+            for k, dg2 in zip(ks, dgs):
+                op, dg = log[k]
+                if dg != dg2:
+                    acc.add({"ops": [op], "fresh": True}, Verdict("fail", "%s parser of a session differs from a fresh interpreter for %s" % (op["p"], short(op["text"], 160)),
+                                                                   "fresh-interpreter-differs:" + op["p"], nontrivial=True))
         acc.extra["fresh_interpreter_comparisons"] = len(log)
+        acc.extra["fresh_interpreter_isolated"] = len(iso)
     return acc
